@@ -238,15 +238,34 @@ async fn episode(p: &EpParams) -> EpReport {
                         }
                         c2.delete_sub(&sp2).await
                     });
+                    // half of the time a third client creates the name again right away (the first
+                    // incarnation may still be on its way out: whatever that deletion still does by
+                    // name must not hit the new incarnation)
+                    let again = if rng.chance(1, 2) {
+                        let (c3, tp3, sp3) = (Cx::new(&w, 7), t.clone(), s.clone());
+                        let k = rng.below(7);
+                        Some(tokio::spawn(async move {
+                            for _ in 0..k {
+                                tokio::task::yield_now().await;
+                            }
+                            c3.create_sub(&sp3, &tp3, 15).await
+                        }))
+                    } else {
+                        None
+                    };
                     let (_ra, _rb) = (a.await, b.await);
+                    if let Some(h) = again {
+                        let _ = h.await;
+                        rep.inc("create_delete_create_races");
+                    }
                     w.settle().await;
                     // resolve by observation: does the subscription exist now?
                     match seq.cx.get_sub(&s).await {
-                        Ok(_) => {
+                        Ok(v) => {
                             if deleted_names.contains(&s) {
                                 recreations_checked += 1;
                             }
-                            seq.m.create_sub(&s, &t, 10, None);
+                            seq.m.create_sub(&s, &t, v.deadline_s, None);
                         }
                         Err(_) => {
                             deleted_names.insert(s.clone());
